@@ -1,6 +1,7 @@
 import EinoV.Basic.JsonUtil
 import EinoV.Model.C16
 import EinoV.Model.C16Keys
+import EinoV.Model.C16Slices
 import EinoV.Expected.C16
 
 namespace EinoV.Oracle.C16
@@ -83,14 +84,34 @@ def builtStore (ops : List (BuildOp × Option Opt)) : List Opt :=
   let paths := builtPaths Expected.C16.facts.designateCopies goGrow (ops.map (·.1))
   (attrs.zip paths).map (fun (a, p) => { a with paths := p })
 
+/-- how the caller's store comes about, for the slice-level run: an Option built in one step owns
+    a value array with `spare` unused cells behind the values ("spare", default 0); an Option
+    derived with `DesignateNode…` shares the array of the Option it derives from -/
+def storeOps (c : Json) : JE (List StoreOp) := do
+  match c.getObjVal? "build" with
+  | .ok (.arr ops) => do
+    let parsed ← ops.toList.mapM parseBuildOp
+    let spares := ops.toList.map (fun j => J.natD j "spare" 0)
+    let st := builtStore parsed
+    pure (((parsed.zip spares).zip st).map (fun x =>
+      match x with
+      | (((.designate src _, _), _), o) => StoreOp.derived src o.paths
+      | (((.base, _), sp), o) => StoreOp.fresh o.ty o.vals sp o.handlers o.paths))
+  | _ => do
+    let js ← J.arr c "store"
+    let os ← js.mapM parseOpt
+    pure ((js.zip os).map (fun (j, o) => StoreOp.fresh o.ty o.vals (J.natD j "spare" 0) o.handlers o.paths))
+
 /-- case: {"store":[opt…] | "build":[op…], "calls":[{"g":[node…],"ixs":[i…],"paradigm":s}…]}  →
-    {"results":[{"err":…,"entries":[…]}…], "store":[opt…]} -/
+    {"results":[{"err":…,"entries":[…]}…], "store":[opt…], "arrays":[[cell…]…]}
+    (`arrays`: per Option of the store, the cells `[0, cap)` of its value array after the calls) -/
 def handle (c : Json) : JE Json := do
-  let store ← match c.getObjVal? "build" with
-    | .ok (.arr ops) => do pure (builtStore (← ops.toList.mapM parseBuildOp))
-    | _ => (← J.arr c "store").mapM parseOpt
+  let ops ← storeOps c
   let calls ← (← J.arr c "calls").mapM parseCall
-  let (rs, st) := runCallsW Expected.C16.facts Expected.C16.keyFacts store calls
-  pure <| Json.mkObj [("results", J.mkArr (rs.map resultJson)), ("store", J.mkArr (st.map optJson))]
+  let b := buildStore ops (VHeap.empty, [])
+  let r := runCallsSW Expected.C16.facts Expected.C16.keyFacts Expected.C16.sliceFacts goGrowAny b.1 b.2 calls
+  pure <| Json.mkObj [("results", J.mkArr (r.1.map resultJson)),
+                      ("store", J.mkArr (r.2.1.map (fun o => optJson (o.abs r.2.2)))),
+                      ("arrays", J.mkArr (b.2.map (fun o => J.mkNats (r.2.2.cells o.vh))))]
 
 end EinoV.Oracle.C16
